@@ -126,6 +126,56 @@ def check_rebalance(sb, ref, cs, fee, measure, alloc, second=True, preview_sb=No
     return msgs, traded
 
 
+CHAIN_TARGETS = [("weight", 0.5), ("weight", -0.5), ("weight", 1.5), ("weight", 0.0), ("nr-contracts", 2.0), ("nr-contracts", -3.0)]
+
+
+def chain_case(case, measure, a):
+    """A request whose underlying is a futures chain (month offset 0/1, before/after the roll, from cash or holding what the
+    chain denoted earlier): the contract the chain denotes NOW reaches the target, every other contract of the chain is closed."""
+    from mcx import chainreq as CR
+    b, chain, cs, now, px = CR.setup(case)
+    R = CR.ref_lead(cs, now, case[0])
+    rb = Rebalancing(contracts=[chain], allocation=[a], measure=measure, time=now)
+    try:
+        b.rebalance(rb)
+    except Exception as ex:
+        reset_clock()
+        return ["Broker.rebalance of a chain request raised %r" % (ex,)]
+    msgs = []
+    h = CR.held(b, cs)
+    reset_clock()
+    others = {s_: q for s_, q in h.items() if s_ != R.symbol}
+    if others:
+        msgs.append("the chain denotes %s at %s (month offset %d) but after the rebalance the account also holds %r" % (R.symbol, now, case[0], others))
+    q = h.get(R.symbol, 0.0)
+    bid, ask = px[R.symbol]
+    nlv = float(rb.context_pre.nlv)
+    if measure == "weight":
+        want = a * nlv
+        got = q * R.multiplier * (ask if a > 0 else bid)
+        if abs(got - want) > 1e-9 * max(1.0, abs(want)):
+            msgs.append("chain target %r x NLV-before-trading %r = %r but position %r in %s x multiplier x %s = %r"
+                        % (a, nlv, want, q, R.symbol, "ask" if a > 0 else "bid", got))
+    elif abs(q - a) > 1e-12 * max(1.0, abs(a)):
+        msgs.append("chain target of %r contracts but the position in %s is %r (holdings %r)" % (a, R.symbol, q, h))
+    return msgs
+
+
+def chain_part(rep):
+    from mcx import chainreq as CR
+    n = 0
+    for case in CR.cases():
+        for measure, a in CHAIN_TARGETS:
+            msgs = chain_case(case, measure, a)
+            n += 1
+            if msgs:
+                rep.violation({"part": "chain", "case": list(case), "measure": measure, "alloc": a},
+                              "chain request %s %s %r: %s" % (case, measure, a, "; ".join(msgs[:2])), group=("chain", msgs[0].split(" ")[0], case[0]))
+    rep.add("transitions", n)
+    rep.add("traces_validated_against_impl", n)
+    rep.set("chain_requests", n)
+
+
 def _work(unit):
     src, chunk = unit
     universe, fee, quotes, deposit, depth = src[:5]
@@ -178,6 +228,7 @@ def run(tier, **kw):
         rep.add("rebalances_that_traded", r["nontrivial"])
         for case, msg, group in r["violations"]:
             rep.violation(case, msg, group=group)
+    chain_part(rep)
     rep.set("states", nstates)
     rep.set("bfs_transitions_to_reach_states", bfs_trans)
     rep.set("targets", {"weight": W_TARGETS, "nr-contracts": N_TARGETS})
@@ -193,6 +244,8 @@ def run(tier, **kw):
 
 
 def replay(case, **kw):
+    if case.get("part") == "chain":
+        return chain_case(tuple(case["case"]), case["measure"], case["alloc"])
     reset_clock()
     universe, fee = case["universe"], tuple(case["fee"])
     quotes = [tuple(q) for q in case["quotes"]]
